@@ -89,6 +89,11 @@ def cmd_check(a):
     variants = meta["variants"]
     if a.fw:
         variants = [v for v in variants if v[0] == a.fw]
+    # native (NVX) validator/masker: rebuild from the working tree if its C / builder sources changed
+    nb = subprocess.run([sys.executable, os.path.join(HERE, "nvx_build.py")], capture_output=True, text=True, timeout=600)
+    if nb.returncode != 0:
+        print("HARNESS-ERROR: NVX rebuild failed:\n%s" % nb.stderr[-2000:])
+        return 2
     tmp = os.path.join(HERE, ".tmp", "%s-%d-%d" % (prop, os.getpid(), int(time.time())))
     os.makedirs(tmp, exist_ok=True)
     os.makedirs(os.path.join(HERE, "evidence"), exist_ok=True)
